@@ -5,22 +5,33 @@ use std::io::{self, BufRead, Write};
 use std::panic::{catch_unwind, AssertUnwindSafe};
 
 mod c19;
+mod ring;
+mod sched;
 
 /// One interpreter per property: `case` starts a fresh implementation state.
 pub trait Interp {
     fn case(&mut self, args: &[&str]) -> String;
     fn op(&mut self, op: &str, args: &[&str]) -> String;
+    /// further output lines produced by the last `case`/op (ring-buffer traces)
+    fn extra_lines(&mut self) -> Vec<String> {
+        Vec::new()
+    }
 }
 
 fn make(prop: &str) -> Option<Box<dyn Interp>> {
     match prop {
         "C19" => Some(Box::new(c19::C19::default())),
+        "C04" | "C05" | "C06" | "C13" | "C14" => Some(Box::new(ring::Ring::default())),
         _ => None,
     }
 }
 
 fn main() {
     let prop = std::env::args().nth(1).unwrap_or_default();
+    if prop == "--ring-one" {
+        let rest: Vec<String> = std::env::args().skip(2).collect();
+        ring::run_one(&rest);
+    }
     std::panic::set_hook(Box::new(|_| {})); // panics are answers, not noise
     let mut it = match make(&prop) {
         Some(i) => i,
@@ -59,6 +70,9 @@ fn main() {
             }
         };
         writeln!(out, "{l} => {ans}").unwrap();
+        for x in it.extra_lines() {
+            writeln!(out, "{x}").unwrap();
+        }
     }
     out.flush().unwrap();
 }
